@@ -2,7 +2,7 @@
 #include "vll_rt.h"
 
 int vll_fatal_ok, vll_fatal_seen;
-int vll_exc; void* vll_exc_obj; int vll_exc_type;
+int vll_exc; void* vll_exc_obj; int vll_exc_type; void* vll_exc_ti;
 
 #ifdef __CPROVER__
 /* ------------------------------------------------------------------ CBMC mode */
